@@ -17,6 +17,7 @@ class Sched:
     def __init__(self):
         self.current: Coop | None = None
         self.threads: list[Coop] = []
+        self.fine = False          # race search: also yield before an event is set/cleared OUTSIDE any instrumented lock
 
     def dispose(self):
         for t in self.threads:
@@ -40,6 +41,7 @@ class Coop:
         self.exc = None
         self.started = False
         self.progress = 0          # bumped by instrumentation when something observable happened
+        self.held = 0              # instrumented locks currently held (entries, re-entrant)
         self.t = threading.Thread(target=self._run, daemon=True, name=name)
         sched.threads.append(self)
 
@@ -102,10 +104,17 @@ class IEvent:
         self.sched = sched
         self.flag = False
 
+    def _unprotected(self):
+        c = self.sched.current
+        if self.sched.fine and c is not None and c.held == 0:
+            c.yield_()             # somebody else may run between the decision and the operation
+
     def set(self):
+        self._unprotected()
         self.flag = True
 
     def clear(self):
+        self._unprotected()
         self.flag = False
 
     def is_set(self):
@@ -134,10 +143,14 @@ class ILock:
         assert self.owner is None or self.owner is c, "lock held by a parked thread"
         self.owner = c
         self.depth += 1
+        if c is not None:
+            c.held += 1
         return self
 
     def __exit__(self, *a):
         self.depth -= 1
+        if self.owner is not None:
+            self.owner.held -= 1
         if self.depth == 0:
             c = self.owner
             self.owner = None
